@@ -1,6 +1,6 @@
 (* C18: extraction of the container models (ExtrOcamlBasic only; numbers stay the extracted positive/N/Z) *)
 From Coq Require Extraction ExtrOcamlBasic.
-From Verif Require Import Containers.BitVecModel Containers.ArenaModel Containers.VecModel Containers.StrModel Containers.HashModel Containers.TreeModel Containers.TreeGeneral Containers.ListModel Containers.RangeIterModel Containers.BitSetModel.
+From Verif Require Import Containers.BitVecModel Containers.ArenaModel Containers.VecModel Containers.StrModel Containers.HashModel Containers.TreeModel Containers.TreeGeneral Containers.TreeAgreeModel Containers.ArenaChainAgreeModel Containers.ListModel Containers.RangeIterModel Containers.BitSetModel.
 From VerifGen Require Import C18HashTable C18VecTable.
 Extraction Blacklist List String Int.
 Extraction "containers.ml"
@@ -11,7 +11,7 @@ Extraction "containers.ml"
   str_empty str_tmp str_abs str_nul_ok str_assign str_op_text str_op_char str_op_chars str_pad_end str_op_number str_op_hex
   str_op_format str_truncate str_clear str_reset str_equals
   hash_empty hash_rehash hash_insert hash_remove hash_get hash_release hash_abs
-  tree_empty tree_insert tree_remove tree_get tree_shape tree_keys rb_valid tree_state_ok
+  tree_empty tree_insert tree_remove tree_get tree_shape tree_keys rb_valid tree_state_ok insert_agrees remove_agrees chain_scan_agrees
   dlist_empty dl_add dl_insert dl_unlink dl_pop_first dl_pop dl_forward dl_backward pool_alloc pool_release
   ranges bitset_empty bs_resize_pub bs_append bs_set_bit bs_bit_at bs_fill_bits bs_clear_bits bs_clear_all bs_fill_all bs_truncate bs_release
   vec_grow_table hash_primes.
